@@ -29,7 +29,7 @@ pub fn def() -> PropDef {
         shards: |t| t.pick(32, 128),
         run,
         replay,
-        rule: "Part H: two peers (Awareness + DefaultProtocol on real Docs, client ids 3 and 5, both client-id orders), two FIFO byte channels. Prior divergence: every sequence of <= P local edits spread over both peers with optional full / one-way syncs in between (common base, cross-client origins). Then ALL interleavings of {Connect(p) = Protocol::start, Recv(p) = pop head payload, Protocol::handle, push replies, Edit(p, op) (<= E, forwarded as Update), AwSet(p) (<= 1, forwarded as Awareness)}, state-matched on (both internal store dumps, both channel contents, awareness registers, counters). Every payload crossing a channel is decoded with MessageReader and re-encoded (byte-identical). At every quiescent state (both connected, both channels empty): equal visible dumps, equal state vectors, nothing pending, equal awareness registers. Part A: three real Awareness instances (clients 1,2,3), controlled clock; BFS over {set_local_state(A|B), clean_local_state, remove_state(other live client) (time-out), emit update() / update_with_clients(one | all known) into a pool, deliver any pooled update to any peer} up to D actions, states are plain data re-materialised on a real Awareness per transition. Per delivery: per-client clock never decreases, an entry with a lower clock changes nothing, a higher clock wins, the peer's own live state is never erased, untouched clients unchanged, delivering again changes nothing; per local action: own clock strictly increases; per state: every ordered pair of pooled updates commutes on every peer; at the deepest states every permutation of every <= 4-subset of the pool gives the same registers on every peer, and exchanging full updates until nothing changes makes all peers agree. distinct_nontrivial = distinct quiescent (documents, awareness) outcomes + distinct register maps",
+        rule: "Part H: two peers (Awareness + DefaultProtocol on real Docs, client ids 3 and 5, both client-id orders), two FIFO byte channels. Prior divergence: every sequence of <= P local edits spread over both peers with optional full / one-way syncs in between (common base, cross-client origins). Then ALL interleavings of {Connect(p) = Protocol::start, Recv(p) = pop head payload, Protocol::handle, push replies, Edit(p, op) (<= E, forwarded as Update), AwSet(p) (<= 1, forwarded as Awareness)}, state-matched on (both internal store dumps, both channel contents, awareness registers, counters). Every payload crossing a channel is decoded with MessageReader, re-encoded and decoded again (same messages, same length; an awareness update of several clients is written in hash order). At every quiescent state (both connected, both channels empty): equal visible dumps, equal state vectors, nothing pending, equal awareness registers. Part A: three real Awareness instances (clients 1,2,3), controlled clock; BFS over {set_local_state(A|B), clean_local_state, remove_state(other live client) (time-out), emit update() / update_with_clients(one | all known) into a pool, deliver any pooled update to any peer} up to D actions, states are plain data re-materialised on a real Awareness per transition. Per delivery: per-client clock never decreases, an entry with a lower clock changes nothing, a higher clock wins, the peer's own live state is never erased, untouched clients unchanged, delivering again changes nothing; per local action: own clock strictly increases; per state: every ordered pair of pooled updates commutes on every peer; at the deepest states every permutation of every <= 4-subset of the pool gives the same registers on every peer, and exchanging full updates until nothing changes makes all peers agree. distinct_nontrivial = distinct quiescent (documents, awareness) outcomes + distinct register maps",
         assumptions: &[
             "awareness JSON values are the strings \"A\", \"B\", \"s<n>\"; the JSON literal null as a *local* state is excluded (it is indistinguishable from removal on the wire)",
             "time-outs (remove_state of another client) only for clients the peer knows as live, as in y-protocols",
